@@ -30,10 +30,6 @@ func CheckRootSchema(rootSchema *schema.Schema) {
 		allowedJsonTypes: make(map[json.Type]struct{}, 10),
 	}
 
-	if rootSchema.RootNode() != nil { // the root schema may contain no nodes
-		c.checkNode(rootSchema.RootNode(), rootSchema.TypesList())
-	}
-
 	// The types are checked in the order of their names, so that the error
 	// reported for several broken types does not depend on map iteration.
 	types := rootSchema.TypesList()
@@ -56,6 +52,18 @@ func CheckRootSchema(rootSchema *schema.Schema) {
 		}
 		return a.Begin() < b.Begin()
 	})
+	// An empty type is reported as such wherever it is referred to: the nodes
+	// which refer to it would look into a root node which does not exist.
+	for _, name := range names {
+		if typ := types[name]; typ.Schema().RootNode() == nil {
+			panic(errors.NewDocumentError(typ.RootFile(), errors.Format(errors.ErrEmptyType, name)))
+		}
+	}
+
+	if rootSchema.RootNode() != nil { // the root schema may contain no nodes
+		c.checkNode(rootSchema.RootNode(), rootSchema.TypesList())
+	}
+
 	for _, name := range names {
 		c.checkType(name, types[name], types)
 	}
@@ -74,7 +82,7 @@ func (c *checkSchema) checkType(name string, typ schema.Type, ss map[string]sche
 			// they were read from, which for a property inherited through
 			// "allOf" is the file of another type: the error keeps its file
 			// and its position.
-			if documentError.Filename() == "" {
+			if !documentError.HasFile() {
 				documentError.SetFile(typ.RootFile())
 			}
 			documentError.SetIncorrectUserType(name)
